@@ -35,6 +35,7 @@ EXTENDS Evm, FeeMarket
 (*   gasOf     per counted tx: gas used recorded in the transient store    *)
 (*   logsOf    per counted tx: number of logs recorded                     *)
 (*   blooms    per counted tx: bloom (set of bit positions) of its receipt *)
+(*   enableCreate, enableCall   x/evm parameters (governance)              *)
 (***************************************************************************)
 
 \* basic validation refuses gas limits below 21000 - 1 (overridden with a small number in the exhaustive model)
@@ -58,6 +59,8 @@ EthAnteReject(S, t) ==
   \/ Bal(w, t.from) < t.gas * eff   \* cannot pay the fee
   \/ t.nonce # Nonce(w, t.from)       \* stale or future nonce
   \/ t.shape # "ok"                 \* lane rules (memo, timeout, signatures, fee fields ...): see Lanes.tla
+  \/ (t.to = "create" /\ ~S.enableCreate)   \* x/evm parameter: contract creation switched off by governance
+  \/ (t.to # "create" /\ ~S.enableCall)     \* x/evm parameter: message calls switched off by governance
 
 (* Effects of a successful ante run *)
 AnteWorld(S, t) ==
